@@ -149,6 +149,13 @@ class _Canonical(ast.NodeTransformer):
                 if isinstance(f, ast.Attribute) and isinstance(f.value, ast.Name) and f.value.id in ("logger", "logging") \
                         and f.attr in ("debug", "info", "warning", "warn", "error", "exception", "critical", "log"):
                     continue
+            if isinstance(st, ast.Assign) and len(st.targets) == 1 and isinstance(st.targets[0], ast.Name) and isinstance(st.value, ast.Name) and st.targets[0].id == st.value.id:
+                continue                    # x = x
+            if isinstance(st, ast.Assign) and len(st.targets) == 1 and isinstance(st.targets[0], ast.Subscript) and isinstance(st.targets[0].slice, ast.Slice) \
+                    and isinstance(st.value, ast.Constant) and st.value.value in (b"", "") and st.targets[0].slice.step is None \
+                    and isinstance(st.targets[0].slice.lower, ast.Constant) and isinstance(st.targets[0].slice.upper, ast.Constant) \
+                    and st.targets[0].slice.lower.value == st.targets[0].slice.upper.value and isinstance(st.targets[0].value, ast.Name):
+                continue                    # buf[n:n] = b'' changes nothing
             if isinstance(st, ast.Expr) and isinstance(st.value, ast.Constant):
                 continue                    # docstrings and stray literals
             if isinstance(st, ast.Expr) and (isinstance(st.value, ast.Name) or (isinstance(st.value, ast.Tuple) and all(isinstance(x, ast.Name) for x in st.value.elts))):
@@ -275,6 +282,9 @@ class _Canonical(ast.NodeTransformer):
                 else:
                     args.append(a)
             node.args = args
+        if isinstance(node.func, ast.Name) and node.func.id == "len" and len(node.args) == 1 and not node.keywords and isinstance(node.args[0], ast.Constant) \
+                and isinstance(node.args[0].value, (bytes, str)):
+            return ast.copy_location(ast.Constant(value=len(node.args[0].value)), node)
         # list() / dict() / tuple() / bytes() / str() without arguments are the empty literals
         if isinstance(node.func, ast.Name) and not node.args and not node.keywords and node.func.id in ("list", "dict", "tuple", "bytes", "str"):
             lit = {"list": ast.List(elts=[], ctx=ast.Load()), "dict": ast.Dict(keys=[], values=[]), "tuple": ast.Tuple(elts=[], ctx=ast.Load()),
@@ -405,9 +415,29 @@ def _rename_locals(fn: ast.FunctionDef, template) -> None:
     if fn.args.kwarg:
         params.add(fn.args.kwarg.arg)
     used = {n.id for n in ast.walk(fn) if isinstance(n, ast.Name)}
-    for old, new in mapping.items():
-        if old in params or new in params or (new in used and new not in mapping) or any(isinstance(n, (ast.Global, ast.Nonlocal)) for n in ast.walk(fn)):
-            return
+    if any(isinstance(n, (ast.Global, ast.Nonlocal)) for n in ast.walk(fn)):
+        return
+
+    def exclusive(a_name, b_name) -> bool:
+        """All occurrences of a_name lie in one branch of some if statement and all of b_name in the other."""
+        for node in ast.walk(fn):
+            if isinstance(node, ast.If) and node.orelse:
+                in_body = {id(x) for st_ in node.body for x in ast.walk(st_)}
+                in_else = {id(x) for st_ in node.orelse for x in ast.walk(st_)}
+                occ_a = [x for x in ast.walk(fn) if isinstance(x, ast.Name) and x.id == a_name]
+                occ_b = [x for x in ast.walk(fn) if isinstance(x, ast.Name) and x.id == b_name]
+                for s1, s2 in ((in_body, in_else), (in_else, in_body)):
+                    if occ_a and occ_b and all(id(x) in s1 for x in occ_a) and all(id(x) in s2 for x in occ_b):
+                        return True
+        return False
+    for old in list(mapping):
+        new = mapping[old]
+        if old in params or new in params:
+            del mapping[old]
+        elif new in used and new not in mapping and not exclusive(old, new):
+            del mapping[old]
+    if not mapping:
+        return
     if len(set(mapping.values())) != len(mapping):
         return
     # nested functions and lambdas: the renaming is applied uniformly to every Name below fn, which keeps closures and
@@ -538,6 +568,12 @@ def _eval_events(node: ast.AST, stop: ast.AST):
     return ev, False
 
 
+def _alias_chain(e: ast.AST) -> bool:
+    """name.attr.attr[const]...: reading it again gives the same object as long as nobody stores to those attributes/items."""
+    return isinstance(e, ast.Name) or (isinstance(e, ast.Attribute) and _alias_chain(e.value)) \
+        or (isinstance(e, ast.Subscript) and isinstance(e.slice, ast.Constant) and _alias_chain(e.value))
+
+
 def _pure_chain(e: ast.AST) -> bool:
     return isinstance(e, ast.Name) or (isinstance(e, ast.Attribute) and _pure_chain(e.value))
 
@@ -649,6 +685,48 @@ def _head_line(st: ast.stmt) -> str:
     return ast.unparse(st).splitlines()[0].strip()
 
 
+def _copy_propagate_attr(fn, blk, i, st, ref_lines) -> bool:
+    """`self.a = p` (p a parameter): a later read of self.a in the same block is p, as long as neither is written again and no
+    method of self runs in between; done where it makes the statement read as the reference's."""
+    import copy as _copy
+    attr, p = st.targets[0].attr, st.value.id
+    if any(isinstance(x, ast.Name) and x.id == p and isinstance(x.ctx, (ast.Store, ast.Del)) for x in ast.walk(fn)):
+        return False
+    for later in blk[i + 1:]:
+        for sub in ast.walk(later):
+            if isinstance(sub, ast.Attribute) and sub.attr == attr and isinstance(sub.ctx, (ast.Store, ast.Del)):
+                return False
+            if isinstance(sub, ast.Call) and isinstance(sub.func, ast.Attribute) and isinstance(sub.func.value, ast.Name) and sub.func.value.id == "self":
+                return False
+            if isinstance(sub, (ast.FunctionDef, ast.Lambda)):
+                return False
+        for sub in ast.walk(later):
+            if not isinstance(sub, ast.stmt):
+                continue
+            scope = sub.test if isinstance(sub, (ast.If, ast.While)) else (sub if isinstance(sub, _SIMPLE_STMTS) else None)
+            if scope is None or _head_line(sub) in ref_lines:
+                continue
+            uses = [x for x in ast.walk(scope) if isinstance(x, ast.Attribute) and x.attr == attr and isinstance(x.value, ast.Name) and x.value.id == "self" and isinstance(x.ctx, ast.Load)]
+            if not uses:
+                continue
+            trial = _copy.deepcopy(sub)
+
+            class _R(ast.NodeTransformer):
+                def visit_Attribute(self, node):
+                    if node.attr == attr and isinstance(node.value, ast.Name) and node.value.id == "self" and isinstance(node.ctx, ast.Load):
+                        return ast.copy_location(ast.Name(id=p, ctx=ast.Load()), node)
+                    return self.generic_visit(node)
+            if isinstance(trial, (ast.If, ast.While)):
+                trial.test = _R().visit(trial.test)
+            else:
+                trial = _R().visit(trial)
+            if _head_line(_Canonical().visit(trial)) in ref_lines:
+                for u in uses:
+                    _replace_in(fn, u, ast.Name(id=p, ctx=ast.Load()))
+                return True
+    return False
+
+
 def _substitute_toward_reference(fn: ast.FunctionDef, ref_fn: dict) -> None:
     """Forward substitution guided by the reference: a read of a local whose (pure, still valid) defining expression, put in
     its place, makes the statement read exactly as one of the reference function does is replaced by that expression."""
@@ -659,6 +737,12 @@ def _substitute_toward_reference(fn: ast.FunctionDef, ref_fn: dict) -> None:
         changed = False
         for blk in _fn_blocks(fn):
             for i, st in enumerate(blk):
+                if isinstance(st, ast.Assign) and len(st.targets) == 1 and isinstance(st.targets[0], ast.Attribute) and isinstance(st.targets[0].value, ast.Name) \
+                        and st.targets[0].value.id == "self" and isinstance(st.value, ast.Name) and st.value.id in params:
+                    if _copy_propagate_attr(fn, blk, i, st, ref_lines):
+                        changed = True
+                        break
+                    continue
                 if not (isinstance(st, ast.Assign) and len(st.targets) == 1 and isinstance(st.targets[0], ast.Name)):
                     continue
                 t = st.targets[0].id
@@ -764,30 +848,78 @@ def _extract_toward_reference(fn: ast.FunctionDef, ref_fn: dict, known: set) -> 
     for x, values in cand.items():
         if x in present or len(values) != 1:
             continue
-        # x must be read exactly once in the reference (otherwise one occurrence of E cannot stand for all of them)
-        if sum(1 for n in ast.walk(rtree) if isinstance(n, ast.Name) and n.id == x and isinstance(n.ctx, ast.Load)) != 1:
-            continue
         txt = ast.unparse(values[0])
         hits = [n for n in ast.walk(fn) if isinstance(n, ast.expr) and not isinstance(n, (ast.Name, ast.Constant)) and ast.unparse(n) == txt]
-        if len(hits) != 1:
+        # nested hits (E inside E) cannot happen for equal texts; hits inside nested functions are out
+        if not hits or any(isinstance(f_, (ast.FunctionDef, ast.Lambda)) and f_ is not fn and any(h_ is y for h_ in hits for y in ast.walk(f_)) for f_ in ast.walk(fn)):
             continue
-        hit = hits[0]
+        n_ref_reads = sum(1 for n in ast.walk(rtree) if isinstance(n, ast.Name) and n.id == x and isinstance(n.ctx, ast.Load))
+        if len(hits) != n_ref_reads:
+            continue
+        done = False
         for blk in _fn_blocks(fn):
             for i, st in enumerate(blk):
                 scope = st.test if isinstance(st, ast.If) else (st if isinstance(st, _SIMPLE_STMTS) else None)
-                if scope is None or not any(n is hit for n in ast.walk(scope)):
+                if scope is None or not any(n is hits[0] for n in ast.walk(scope)):
                     continue
                 if any(isinstance(n, (ast.Lambda, ast.ListComp, ast.SetComp, ast.DictComp, ast.GeneratorExp, ast.NamedExpr)) for n in ast.walk(scope)):
-                    continue
-                events, reached = _eval_events(scope, hit)
-                cond = [n for n in ast.walk(scope) if (isinstance(n, ast.IfExp) and any(y is hit for b in (n.body, n.orelse) for y in ast.walk(b)))
-                        or (isinstance(n, ast.BoolOp) and any(y is hit for v in n.values[1:] for y in ast.walk(v)))]
+                    break
+                events, reached = _eval_events(scope, hits[0])
+                cond = [n for n in ast.walk(scope) if (isinstance(n, ast.IfExp) and any(y is hits[0] for b in (n.body, n.orelse) for y in ast.walk(b)))
+                        or (isinstance(n, ast.BoolOp) and any(y is hits[0] for v in n.values[1:] for y in ast.walk(v)))]
                 if not reached or cond or any(k == "call" for k, _e in events):
-                    continue
-                _replace_in(st if not isinstance(st, ast.If) else st, hit, ast.Name(id=x, ctx=ast.Load()))
-                blk.insert(i, ast.copy_location(ast.Assign(targets=[ast.Name(id=x, ctx=ast.Store())], value=hit), st))
+                    break
+                new_assign = ast.copy_location(ast.Assign(targets=[ast.Name(id=x, ctx=ast.Store())], value=values[0]), st)
+                if len(hits) > 1:
+                    # every occurrence must see the value computed here
+                    blk.insert(i, new_assign)
+                    params_ = {p.arg for p in fn.args.posonlyargs + fn.args.args + fn.args.kwonlyargs}
+                    ok_ = _stable_rhs(fn, blk, i, values[0], hits, params_)
+                    if not ok_:
+                        del blk[i]
+                        break
+                else:
+                    blk.insert(i, new_assign)
+                for h_ in hits:
+                    _replace_in(fn, h_, ast.Name(id=x, ctx=ast.Load()))
                 ast.fix_missing_locations(fn)
-                return _extract_toward_reference(fn, ref_fn, known)
+                done = True
+                break
+            if done:
+                break
+        if done:
+            return _extract_toward_reference(fn, ref_fn, known)
+
+
+def _merge_name_alias(fn: ast.FunctionDef, known: set) -> None:
+    """`b = E` ... `a = b` with b a fresh local that is not used after the copy and a not mentioned in between: b is a."""
+    params = {p.arg for p in fn.args.posonlyargs + fn.args.args + fn.args.kwonlyargs} | ({fn.args.vararg.arg} if fn.args.vararg else set()) | ({fn.args.kwarg.arg} if fn.args.kwarg else set())
+    if any(isinstance(n, (ast.Global, ast.Nonlocal)) for n in ast.walk(fn)):
+        return
+    for blk in _fn_blocks(fn):
+        for i, st in enumerate(blk):
+            if not (isinstance(st, ast.Assign) and len(st.targets) == 1 and isinstance(st.targets[0], ast.Name) and isinstance(st.value, ast.Name)):
+                continue
+            a, b = st.targets[0].id, st.value.id
+            if a == b or b in known or b in params or a in params:
+                continue
+            occ_b = [x for x in ast.walk(fn) if isinstance(x, ast.Name) and x.id == b]
+            if sum(isinstance(x.ctx, ast.Store) for x in occ_b) != 1:
+                continue
+            j = next((k for k in range(i) if isinstance(blk[k], ast.Assign) and len(blk[k].targets) == 1 and isinstance(blk[k].targets[0], ast.Name) and blk[k].targets[0].id == b), None)
+            if j is None:
+                continue
+            region = {id(x) for k in range(j, i + 1) for x in ast.walk(blk[k])}
+            if not all(id(x) in region for x in occ_b):
+                continue
+            if any(isinstance(x, ast.Name) and x.id == a for k in range(j, i) for x in ast.walk(blk[k])):
+                continue
+            if any(isinstance(x, (ast.FunctionDef, ast.Lambda)) for k in range(j, i) for x in ast.walk(blk[k])):
+                continue
+            for x in occ_b:
+                x.id = a
+            del blk[i]
+            return _merge_name_alias(fn, known)
 
 
 def _delay_snapshot_mutation(fn: ast.FunctionDef, known: set) -> None:
@@ -873,21 +1005,25 @@ def _inline_fresh_temps(fn: ast.FunctionDef, known: set, multi: bool = True) -> 
                 if not (isinstance(st, ast.Assign) and len(st.targets) == 1 and isinstance(st.targets[0], ast.Name)):
                     continue
                 t = st.targets[0].id
-                if t not in known and t not in params and len(stores.get(t, [])) == 1 and len(loads.get(t, [])) > 1 and _pure_chain(st.value) \
-                        and isinstance(st.value, ast.Attribute):
+                if t not in known and t not in params and len(stores.get(t, [])) == 1 and len(loads.get(t, [])) >= 1 and _alias_chain(st.value) \
+                        and isinstance(st.value, (ast.Attribute, ast.Subscript)):
                     # alias of an attribute chain, read several times: every read is the chain itself as long as nothing in
                     # the function stores to that attribute or rebinds the chain's root (a callee rebinding the caller's
                     # attribute behind its back is assumed not to happen)
                     chain = st.value
                     root = chain
-                    while isinstance(root, ast.Attribute):
+                    while isinstance(root, (ast.Attribute, ast.Subscript)):
                         root = root.value
                     attr_names = set()
+                    sub_bases = set()
                     c_ = chain
-                    while isinstance(c_, ast.Attribute):
-                        attr_names.add(c_.attr)
+                    while isinstance(c_, (ast.Attribute, ast.Subscript)):
+                        if isinstance(c_, ast.Attribute):
+                            attr_names.add(c_.attr)
+                        else:
+                            sub_bases.add(ast.unparse(c_.value))
                         c_ = c_.value
-                    clash = any(isinstance(x, ast.Attribute) and isinstance(x.ctx, (ast.Store, ast.Del)) and x.attr in attr_names for x in ast.walk(fn)) \
+                    clash = any(isinstance(x, ast.Subscript) and isinstance(x.ctx, (ast.Store, ast.Del)) and ast.unparse(x.value) in sub_bases for x in ast.walk(fn)) or any(isinstance(x, ast.Attribute) and isinstance(x.ctx, (ast.Store, ast.Del)) and x.attr in attr_names for x in ast.walk(fn)) \
                         or (isinstance(root, ast.Name) and root.id != "self" and len(stores.get(root.id, [])) > 0 and root.id not in params) \
                         or any(isinstance(x, (ast.FunctionDef, ast.Lambda)) and x is not fn and any(isinstance(y, ast.Name) and y.id == t for y in ast.walk(x)) for x in ast.walk(fn))
                     later = all(any(u is y for later_st in blk[i + 1:] for y in ast.walk(later_st)) for u in loads[t])
@@ -1081,6 +1217,7 @@ def canonicalise(tree: ast.Module, rel: str = "") -> ast.Module:
                         rename()
                         _delay_snapshot_mutation(n, known)
                         _dissolve_setdefault_alias(n, known)
+                        _merge_name_alias(n, known)
                         _inline_fresh_temps(n, known, multi=False)
                         shape()
                         rename()
@@ -1096,6 +1233,14 @@ def canonicalise(tree: ast.Module, rel: str = "") -> ast.Module:
                         before = now
                     walk(n, q + ".")
         walk(tree, "")
+        if ref is not None:
+            # what the per-function passes uncovered may now match a helper of the reference (or free a fresh one)
+            from . import canon
+            before_ = ast.dump(tree)
+            canon.inline_fresh_helpers(tree, ref)
+            canon.restore_inlined_helpers(tree, ref)
+            if ast.dump(tree) != before_:
+                walk(tree, "")
     ast.fix_missing_locations(tree)
     return tree
 
